@@ -80,6 +80,10 @@ fn periodic(gen: usize, p: usize, n: usize, base: &[u8]) -> Vec<u8> {
         5 => (0..p).map(|i| if i == 0 { 0xA7 } else { 0 }).collect(),
         // a table of boolean flags (two-valued, pseudo-random)
         6 => (0..p).map(|i| ((base[i % base.len()] >> 3) ^ (i as u8 >> 1)) & 1).collect(),
+        // a record that starts with "wide" text (64 UTF-16LE ASCII characters), then plain bytes
+        8 => (0..p).map(|i| if i < 128 { if i % 2 == 0 { b'A' + ((i / 2) % 26) as u8 } else { 0 } } else { base[i % base.len()] }).collect(),
+        // a four-letter alphabet, pseudo-random: full of short self-similarities at every distance
+        9 => (0..p).map(|i| b"ACGT"[((base[i % base.len()] >> 2) ^ (base[(i * 7 + 3) % base.len()] >> 5)) as usize & 3]).collect(),
         _ => (0..p).map(|i| ((i * 7) % 3) as u8 + if i % 11 == 0 { 1 } else { 0 }).collect(),
     };
     (0..n).map(|i| period[i % p]).collect()
@@ -198,6 +202,16 @@ fn explore(ctx: &Ctx) -> Outcome {
     }
     for (gen, p, n) in [(2usize, 627usize, 1_200_000usize), (3, 872, 700_000), (2, 640, 1_000_000), (3, 1500, 700_000)] {
         grid.push((gen, p, n));
+    }
+    // content CLASSES a compressor might special-case (wide text, a tiny alphabet) at periods on
+    // both sides of 1024 / 2048 / the window, odd and even, with total lengths of every residue mod 4
+    for &p in &[255usize, 1023, 1024, 1025, 1501, 2047, 2048, 2049, 2051, 3001, 4095, 4096] {
+        for gen in [8usize, 9] {
+            for extra in 0..4usize {
+                grid.push((gen, p, 6 * p + extra));
+            }
+            grid.push((gen, p, 20 * p));
+        }
     }
     // MANY periods of low-entropy content (long equal runs / two-valued tables inside the
     // period): a loss of a few bytes per period exceeds the bound only after dozens of periods
